@@ -115,12 +115,12 @@ struct Explorer {
     // ---- dynamic part ------------------------------------------------------------------------------------------------------
     struct Op { int kind; T key; T val; };   // 0 insert_or_assign, 1 erase
     static std::string ops_str(const std::vector<Op> &ops) {
-        std::string s; for (size_t i = 0; i < ops.size(); ++i) { if (i) s += ','; s += ops[i].kind == 0 ? "I" + mc::key_str(ops[i].key) + ":" + mc::key_str(ops[i].val) : "E" + mc::key_str(ops[i].key); }
+        std::string s; for (size_t i = 0; i < ops.size(); ++i) { if (i) s += ','; s += ops[i].kind == 0 ? "I" + mc::key_str(ops[i].key) + ":" + mc::key_str(ops[i].val) : ops[i].kind == 1 ? "E" + mc::key_str(ops[i].key) : std::string("N"); }
         return s.empty() ? "-" : s;
     }
     static std::vector<Op> parse_ops(const std::string &s) {
         std::vector<Op> v; if (s == "-") return v;
-        for (auto &t : mc::split(s, ',')) { if (t[0] == 'I') { auto c = t.find(':'); v.push_back({0, mc::parse_key<T>(t.substr(1, c - 1)), mc::parse_key<T>(t.substr(c + 1))}); } else v.push_back({1, mc::parse_key<T>(t.substr(1)), 0}); }
+        for (auto &t : mc::split(s, ',')) { if (t[0] == 'N') { v.push_back({2, 0, 0}); continue; } if (t[0] == 'I') { auto c = t.find(':'); v.push_back({0, mc::parse_key<T>(t.substr(1, c - 1)), mc::parse_key<T>(t.substr(c + 1))}); } else v.push_back({1, mc::parse_key<T>(t.substr(1)), 0}); }
         return v;
     }
 
@@ -310,13 +310,50 @@ struct Explorer {
             std::string init = m.at("init");
             std::vector<std::pair<T, T>> pairs; bool use_create = true; size_t fillers = 0;
             if (init == "empty") use_create = false;
-            else if (init.rfind("deep", 0) == 0) { for (size_t i = 0; i < 600; ++i) pairs.emplace_back(T(5 + 2 * i), T(i % 3 + 1)); fillers = 585; }
+            else if (init.rfind("deep3", 0) == 0) { deep3_history(parse_ops(m.at("ops"))); return; }
+            else if (init.rfind("deep", 0) == 0) { for (size_t i = 0; i < 600; ++i) pairs.emplace_back(T(5 + 2 * i), T(i % 3 + 1)); pairs.emplace_back(T(200000), T(9)); fillers = 585; }
             else for (auto &t : mc::split(init, ';')) { auto c = t.find(':'); pairs.emplace_back(mc::parse_key<T>(t.substr(0, c)), mc::parse_key<T>(t.substr(c + 1))); }
             auto keys = init.rfind("deep", 0) == 0 ? deep_keys() : dyn_keys();
             run_history(pairs, use_create, fillers, parse_ops(m.at("ops")), 0, dyn_queries(keys), init);
         }
     }
-    std::vector<T> deep_keys() { return {T(5), T(7), T(8), T(100000), T(100007)}; }   // bulk-loaded, absent, filler keys
+    std::vector<T> deep_keys() { return {T(5), T(7), T(8), T(100000), T(100007), T(200000)}; }   // bulk-loaded, absent, filler keys, and a bulk-loaded key above every filler
+
+    // Three-level scripted family (default parameters: buffer of 585 entries): create() of 5000 pairs lands in level 5; then
+    // [op] + 585 fresh keys (flush into the empty level 4) + [op] + 585 fresh keys (flush into the now non-empty level 4) + [op],
+    // for every choice of the three ops over two keys of the bulk-load: three versions of one key on three levels.
+    void deep3_history(const std::vector<Op> &ops) {
+        std::string cs = case_of("init=deep3 ops=" + ops_str(ops));
+        run.set_case(cs); run.add(cn.histories); run.add(cn.deep_histories);
+        std::map<T, T> m; std::vector<typename A::Pair> pairs;
+        for (size_t i = 0; i < 5000; ++i) { pairs.push_back({T(10 + 3 * i), T(i % 5 + 1)}); m[T(10 + 3 * i)] = T(i % 5 + 1); }
+        void *d = A::dcreate(pairs.data(), pairs.size());
+        if (!d) { run.violation(cs, "dynamic create returned NULL for a sorted range"); return; }
+        std::vector<T> queries = {T(9), T(10), T(11), T(13), T(14), T(7510), T(7511), T(7513), T(15007), T(15008), T(20000), T(50000000)};
+        T fresh = T(20000);
+        bool ok = true;
+        for (size_t stage = 0; stage < ops.size() && ok; ++stage) {
+            auto &op = ops[stage];
+            if (op.kind == 0) { A::dinsert(d, op.key, op.val); m[op.key] = op.val; } else if (op.kind == 1) { A::derase(d, op.key); m.erase(op.key); }
+            run.add(cn.steps);
+            ok = check_dynamic_state(d, m, queries, cs + " after_stage_op=" + std::to_string(stage), false);
+            if (!ok || stage + 1 == ops.size()) break;
+            for (int i = 0; i < 586; ++i) { fresh = T(fresh + 5); A::dinsert(d, fresh, T(3)); m[fresh] = T(3); }   // flushes the buffer once
+            run.add(cn.merges);
+            ok = check_dynamic_state(d, m, queries, cs + " after_flush=" + std::to_string(stage), false);
+        }
+        if (ok) check_dynamic_state(d, m, queries, cs + " final", true);
+        A::ddestroy(d);
+    }
+    void deep3_all(int first) {
+        std::vector<Op> alphabet = {{0, T(13), T(77)}, {1, T(13), 0}, {0, T(7510), T(78)}, {1, T(7510), 0}, {2, 0, 0}};   // kind 2: no operation
+        for (size_t b = 0; b < alphabet.size(); ++b) for (size_t c = 0; c < alphabet.size(); ++c) {
+            if (run.deadline_passed()) return;
+            std::vector<Op> ops = {alphabet[first], alphabet[b], alphabet[c]};
+            if (first == 0 && b == 1 && c == 4) run.sample(case_of("init=deep3 ops=" + ops_str(ops)));
+            deep3_history(ops);
+        }
+    }
 };
 
 struct Task { int type, kind, palette, len, first; int D, first_op, init_id; ks::FamilySpec spec; size_t eps; };
@@ -343,11 +380,14 @@ template<typename T> void run_task(Run &run, Cn &cn, const Task &t, bool thoroug
             std::string d; for (auto &p : inits[t.init_id]) d += (d.empty() ? "" : ";") + mc::key_str(p.first) + ":" + mc::key_str(p.second);
             ex.dynamic_bfs(inits[t.init_id], true, 0, t.D, t.first_op, keys, d);
         }
+    } else if (t.kind == 5) {
+        ex.deep3_all(t.first_op);
     } else if (t.kind == 4) {
         ex.huge_bfs(t.D, t.first_op);
     } else {
         // deep state: 600 bulk-loaded pairs (land in level 4) + 585 fillers (buffer full): the next insert merges
         std::vector<std::pair<T, T>> pairs; for (size_t i = 0; i < 600; ++i) pairs.emplace_back(T(5 + 2 * i), T(i % 3 + 1));
+        pairs.emplace_back(T(200000), T(9));
         ex.dynamic_bfs(pairs, true, 585, t.D, t.first_op, ex.deep_keys(), "deep600+585");
     }
     (void) thorough;
@@ -385,7 +425,8 @@ int main(int argc, char **argv) {
             { Task t{}; t.type = ty; t.kind = 2; t.D = D; t.first_op = first_op; t.init_id = 0; tasks.push_back(t); }
             for (int init = 1; init < 35; ++init) { Task t{}; t.type = ty; t.kind = 2; t.D = D - 2; t.first_op = first_op; t.init_id = init; tasks.push_back(t); }
         }
-        for (int first_op = 0; first_op < 15; ++first_op) { Task t{}; t.type = ty; t.kind = 3; t.D = Ddeep; t.first_op = first_op; tasks.push_back(t); }
+        for (int first_op = 0; first_op < 18; ++first_op) { Task t{}; t.type = ty; t.kind = 3; t.D = Ddeep; t.first_op = first_op; tasks.push_back(t); }
+        for (int first_op = 0; first_op < 5; ++first_op) { Task t{}; t.type = ty; t.kind = 5; t.first_op = first_op; tasks.push_back(t); }
         // huge deep state (a level owning a PGM-index with the default parameters): uint32 and int64 in the quick tier
         bool asan_build = false;
 #ifdef VERIF_ASAN
@@ -403,7 +444,7 @@ int main(int argc, char **argv) {
     ev.states_counter = "static_indexes_created"; ev.transitions_counter = "static_searches_checked"; ev.nontrivial_counter = "arrays_with_2plus_distinct_keys"; ev.eval_counter = "dynamic_steps_checked";
     ev.rule = "static part: every non-decreasing array of length 1.." + std::to_string(N) + " over four palettes for int32/int64/uint32/uint64, run-time epsilon in {1,2,3,64,4096}, all alphabet queries, plus the two-block grammar for epsilon {1,3,64}; create must return NULL exactly when the reserved value is present. "
               "dynamic part: every history of length " + std::to_string(D) + " of insert_or_assign/erase over 4 colliding keys x 2 values from create_empty, length " + std::to_string(D - 2) + " from every create() of <= 3 sorted pairs, and length " + std::to_string(Ddeep) +
-              " from a deep state (create of 600 pairs + 585 inserts, so that the next insert merges the buffer into level 4), and short histories from a huge state (create of 2^21+1 pairs, which lands in a level that owns a PGM-index with the default parameters, followed by 40 consecutive erases); after every step find, lower_bound + iterator_next, begin + iterator_next to exhaustion and size are compared with std::map. Only functions of cpgm.h are called. "
+              " from a deep state (create of 600 pairs + 585 inserts, so that the next insert merges the buffer into level 4), every three-stage script over a three-level state (create of 5000 pairs in level 5, two buffer flushes into level 4, an insert/erase/no-op on two bulk-loaded keys before, between and after the flushes), and short histories from a huge state (create of 2^21+1 pairs, which lands in a level that owns a PGM-index with the default parameters, followed by 40 consecutive erases); after every step find, lower_bound + iterator_next, begin + iterator_next to exhaustion and size are compared with std::map. Only functions of cpgm.h are called. "
               "States = static indexes built (dynamic steps are reported as evaluations); non-trivial = at least two distinct keys.";
     ev.bounds = "N<=" + std::to_string(N) + ", dynamic depth " + std::to_string(D) + "/" + std::to_string(D - 2) + "/" + std::to_string(Ddeep);
     ev.assumptions = {"c-interface/cpgm.cpp compiled from the repository with the engine's flags", "dynamic histories are re-executed from scratch (opaque handles cannot be copied); states after a shared prefix are checked once"};
